@@ -189,6 +189,12 @@ Proof. intros gt g snaps s g' h. unfold proceed. destruct (_ && _); [discriminat
 Lemma reset_sub : forall gt s0 s g' h, reset gt s0 s g' = Some h -> gt s g' = Some h.
 Proof. intros gt s0 s g' h. unfold reset. destruct (_ && _); [discriminate | auto]. Qed.
 
+Lemma reset_many_sub : forall snaps gt s g' h, fold_left reset snaps gt s g' = Some h -> gt s g' = Some h.
+Proof.
+  induction snaps as [|x r IH]; intros gt s g' h H; cbn [fold_left] in H; [exact H|].
+  apply IH in H. eapply reset_sub; exact H.
+Qed.
+
 Lemma hold_refresh_inv : forall dflt st level g dur snaps,
   inv dflt st -> (dflt = true -> g <> system -> dur = 0) ->
   gating_inv dflt (st_lastref st) (st_now st) (fst (hold_refresh st level g dur snaps)).
@@ -203,7 +209,7 @@ Qed.
 Lemma step_inv : forall dflt st o, (dflt = true -> default_duration o = true) -> inv dflt st -> inv dflt (step st o).
 Proof.
   intros dflt st o Hdd Hinv. pose proof Hinv as [Hlr Hg].
-  destruct o as [level g dur snaps | level t snaps | g snaps | s | s | d]; unfold step.
+  destruct o as [level g dur snaps | level t snaps | g snaps | s | rs | rq rs | s | d]; unfold step.
   - split; [exact Hlr|]. cbn [st_gating st_lastref st_now]. apply hold_refresh_inv; [exact Hinv|].
     intros Hdf Hgs. specialize (Hdd Hdf). cbn [default_duration] in Hdd.
     destruct (g =? system)%N eqn:E; [apply N.eqb_eq in E; contradiction | cbn [orb] in Hdd; lia].
@@ -211,6 +217,8 @@ Proof.
     intros _ Hgs. contradiction.
   - split; [exact Hlr|]. cbn [st_gating st_lastref st_now]. eapply sub_gating_inv; [apply proceed_sub | exact Hg].
   - split; [exact Hlr|]. cbn [st_gating st_lastref st_now]. eapply sub_gating_inv; [apply reset_sub | exact Hg].
+  - split; [exact Hlr|]. cbn [st_gating st_lastref st_now]. eapply sub_gating_inv; [apply reset_many_sub | exact Hg].
+  - split; [exact Hlr|]. cbn [st_gating st_lastref st_now]. eapply sub_gating_inv; [apply reset_many_sub | exact Hg].
   - split; cbn [st_gating st_lastref st_now].
     + intros x. destruct (x =? s)%N; [lia | apply Hlr].
     + intros s' g h Hget. destruct (Hg _ _ _ Hget) as [H1 [H2 H3]]. split; [exact H1|]. split; [|exact H3].
@@ -248,12 +256,14 @@ Qed.
 Lemma step_first : forall st o s g h,
   st_gating (step st o) s g = Some h -> h_first h = first_of (st_now st) (st_gating st) s g.
 Proof.
-  intros st o s g h. destruct o as [level g0 dur snaps | level t snaps | g0 snaps | s0 | s0 | d]; unfold step;
+  intros st o s g h. destruct o as [level g0 dur snaps | level t snaps | g0 snaps | s0 | rs | rq rs | s0 | d]; unfold step;
     cbn [st_gating]; intros H.
   - eapply hold_refresh_first; exact H.
   - eapply hold_refresh_first; exact H.
   - apply proceed_sub in H. unfold first_of. rewrite H. reflexivity.
   - apply reset_sub in H. unfold first_of. rewrite H. reflexivity.
+  - apply reset_many_sub in H. unfold first_of. rewrite H. reflexivity.
+  - apply reset_many_sub in H. unfold first_of. rewrite H. reflexivity.
   - unfold first_of. rewrite H. reflexivity.
   - unfold first_of. rewrite H. reflexivity.
 Qed.
@@ -276,6 +286,8 @@ Proof.
   destruct (IH (step st o) (ep_step st (step st o) ep)) as [H1 H2]. split; [exact H1|].
   intros Hok. apply H2. apply ep_step_ok. exact Hok.
 Qed.
+
+Definition h_ns : Z := 3600000000000.
 
 (* ------------------------------------------------------------------ the theorems *)
 
@@ -404,7 +416,7 @@ Qed.
 Lemma step_sys_untouched : forall st o s, sys_untouched s o = true ->
   st_gating (step st o) s system = st_gating st s system.
 Proof.
-  intros st o s H. destruct o as [level g dur snaps | level t snaps | g snaps | s0 | s0 | d]; unfold step; cbn [st_gating];
+  intros st o s H. destruct o as [level g dur snaps | level t snaps | g snaps | s0 | rs | rq rs | s0 | d]; unfold step; cbn [st_gating];
     try reflexivity; cbn [sys_untouched] in H.
   - assert (Hc : system <> g \/ ~ In s snaps).
     { apply orb_prop in H. destruct H as [H|H]; [left; intros <-; discriminate | right; rewrite <- mem_In; destruct (mem s snaps); [discriminate | discriminate]]. }
@@ -423,7 +435,36 @@ Proof.
     + destruct (system =? g)%N eqn:E; [apply N.eqb_eq in E; subst g; discriminate | reflexivity].
     + destruct snaps as [|x r]; [discriminate|]. destruct (mem s (x :: r)); [discriminate|]. rewrite andb_false_r. reflexivity.
   - unfold reset. cbn [N.eqb system negb]. rewrite andb_false_r. reflexivity.
+  - clear H. generalize (st_gating st). induction rs as [|x r IH]; intros gt; cbn [fold_left]; [reflexivity|].
+    rewrite IH. unfold reset. cbn [N.eqb system negb]. rewrite andb_false_r. reflexivity.
+  - clear H. generalize (st_gating st). induction rs as [|x r IH]; intros gt; cbn [fold_left]; [reflexivity|].
+    rewrite IH. unfold reset. cbn [N.eqb system negb]. rewrite andb_false_r. reflexivity.
 Qed.
+
+(* a refused refresh request changes nothing, an accepted one only removes hold records of gating snaps *)
+Theorem refused_refresh_changes_nothing : forall st snaps, step st (RefreshRefused snaps []) = st.
+Proof. intros [gt lr now] snaps. reflexivity. Qed.
+
+Theorem refused_refresh_only_removes : forall st snaps done s g h,
+  st_gating (step st (RefreshRefused snaps done)) s g = Some h -> st_gating st s g = Some h.
+Proof. intros st snaps done s g h H. cbn [step st_gating] in H. eapply reset_many_sub; exact H. Qed.
+
+(* the statement `a refused refresh request leaves every hold record alone` is false of the faithful model for requests
+   naming several snaps: snap 1 holds snap 2 for the default time; one hour later a request to refresh snaps 1 and 2 is
+   refused because snap 1 has running apps, after snap 2 had been prepared; the record of the hold is gone, snap 1 holds
+   again, and 48 h after the first hold snap 2 is still reported as held *)
+Definition refused_many_witness : list op :=
+  [Hold 0 1 0 [2%N]; Tick (Z.to_N h_ns); RefreshRefused [1%N; 2%N] [2%N]; Hold 0 1 0 [2%N]; Tick (Z.to_N (47 * h_ns + 1))].
+Lemma refused_many_witness_spec :
+  forallb default_duration refused_many_witness = true /\
+  st_gating (run (init_state (fun _ => - h_ns) 0) (firstn 3 refused_many_witness)) 2%N 1%N = None /\
+  let st := run (init_state (fun _ => - h_ns) 0) refused_many_witness in
+  effective st 0 2 1 = true /\ 0 + forty_eight_h < st_now st.
+Proof. vm_compute. repeat split; reflexivity. Qed.
+
+Theorem accepted_refresh_only_removes : forall st snaps s g h,
+  st_gating (step st (RefreshAccepted snaps)) s g = Some h -> st_gating st s g = Some h.
+Proof. intros st snaps s g h H. cbn [step st_gating] in H. eapply reset_many_sub; exact H. Qed.
 
 Lemma run_sys_untouched : forall ops st s, forallb (sys_untouched s) ops = true ->
   st_gating (run st ops) s system = st_gating st s system.
@@ -483,8 +524,6 @@ Proof.
 Qed.
 
 (* ------------------------------------------------------------------ witnesses *)
-Definition h_ns : Z := 3600000000000.
-
 (* explicit durations are not bounded by 48 h per episode: hold for the default, ask again for 47 h after 47 h *)
 Definition explicit_witness : list op :=
   [Hold 0 1 0 [2%N]; Tick (Z.to_N (47 * h_ns)); Hold 0 1 (47 * h_ns) [2%N]; Tick (Z.to_N (2 * h_ns))].
